@@ -133,7 +133,7 @@ pub fn hist_case(name: &str, cfg: CfgSpec, steps: Vec<H>) -> Case {
     }
 }
 
-fn stake(sender: P, mint_to: MintTo, faults: Vec<bool>) -> Op {
+fn stake(sender: P, mint_to: MintTo, faults: Vec<u8>) -> Op {
     // `Some(true)` only matters when both chains share a prefix: it selects the native-chain delivery
     let flag = if mint_to == MintTo::Native { Some(true) } else { None };
     Op::Stake { sender, mint_to, flag, expected: false, funds: Funds::Native, faults }
@@ -264,7 +264,22 @@ pub fn histories(cfg: &CfgSpec, tier: &str) -> Vec<Case> {
     // submission failures roll the whole operation back
     add(
         "submitfail",
-        vec![resume(), fails(stake(P::U(0), MintTo::None, vec![true])), fails(stake(P::U(0), MintTo::Native, vec![false, true])), ok(stake(P::U(0), MintTo::Native, vec![])), fails(Op::Rewards { sender: P::HookCollector, funds: Funds::Native, faults: vec![true] })],
+        vec![resume(), fails(stake(P::U(0), MintTo::None, vec![1])), fails(stake(P::U(0), MintTo::Native, vec![0, 1])), ok(stake(P::U(0), MintTo::Native, vec![])), fails(Op::Rewards { sender: P::HookCollector, funds: Funds::Native, faults: vec![1] })],
+    );
+    // accepted transfers whose reply carries no response data: nothing may stay untracked; then the usual life cycle
+    add(
+        "reply-without-data",
+        vec![
+            resume(),
+            H::Try(stake(P::U(0), MintTo::None, vec![2])),
+            H::Try(stake(P::U(0), MintTo::Native, vec![0, 2])),
+            ok(stake(P::U(0), MintTo::None, vec![])),
+            H::Try(Op::Rewards { sender: P::HookCollector, funds: Funds::Native, faults: vec![2] }),
+            H::Dyn(DynOp::IbcOldest(2)),
+            H::Try(Op::Recover { sender: P::U(2), paginated: None, selected: None, receiver: None, faults: vec![2] }),
+            H::Try(Op::Recover { sender: P::U(2), paginated: None, selected: None, receiver: None, faults: vec![] }),
+            H::Dyn(DynOp::IbcOldest(0)),
+        ],
     );
     // complete exit, then stake again (first stake into an empty pool twice)
     add(
